@@ -135,7 +135,9 @@ func stateInlineAnnotationText(s *Scanner, c byte) state {
 		s.found(lexeme.NewLine)
 		fn := s.returnToStep.Pop()
 		s.step = func(s *Scanner, c byte) state {
-			if s.isAnnotationStart(c) {
+			// Inside a multi-line annotation this was a comment in a list of
+			// values: another comment line may follow it.
+			if s.isAnnotationStart(c) && s.annotation != annotationMultiLine {
 				panic(s.newDocumentErrorAtCharacter("after inline annotation"))
 			}
 			return fn(s, c)
